@@ -23,9 +23,7 @@ namespace avel {
         //=================================================
 
         explicit Denominator(Denom64u denom):
-            m(denom.m),
-            sh2(denom.sh2),
-            d(denom.d) {}
+            Denominator(vec4x64u{denom.value()}) {}
 
         explicit Denominator(vec4x64u d):
             Denominator(d, vec4x64u{64} - countl_zero(d - vec4x64u{1})) {}
